@@ -20,8 +20,8 @@ type deferred struct {
 type frame struct {
 	x         *Exec
 	fn        *ssa.Function
-	env       map[ssa.Value]Value
-	locals    []Value
+	env       []Value
+	idx       map[ssa.Value]int
 	block     *ssa.BasicBlock
 	prev      *ssa.BasicBlock
 	defers    []deferred
@@ -39,7 +39,15 @@ const (
 func (fr *frame) get(v ssa.Value) Value {
 	switch v := v.(type) {
 	case *ssa.Const:
-		return fr.x.constVal(v)
+		if c, ok := fr.x.w.consts[v]; ok {
+			return c
+		}
+		c := fr.x.constVal(v)
+		switch c.(type) {
+		case *Term, Str:
+			fr.x.w.consts[v] = c
+		}
+		return c
 	case *ssa.Global:
 		return fr.x.globalPtr(v)
 	case *ssa.Function:
@@ -53,8 +61,8 @@ func (fr *frame) get(v ssa.Value) Value {
 			}
 		}
 	}
-	if r, ok := fr.env[v]; ok {
-		return r
+	if i, ok := fr.idx[v]; ok {
+		return fr.env[i]
 	}
 	panic(fmt.Sprintf("get: no value for %T %v in %s", v, v.Name(), fr.fn))
 }
@@ -90,27 +98,47 @@ func (x *Exec) constVal(c *ssa.Const) Value {
 }
 
 func (x *Exec) globalPtr(g *ssa.Global) Value {
+	path := g.Pkg.Pkg.Path()
+	if !x.eng.interpreted(path) {
+		// standard-library globals live at worker level: they are initialised once
+		// (package init run on demand) and are read-only afterwards
+		w := x.w
+		if lazyInitPkgs[path] && !w.stdInit[path] {
+			w.stdInit[path] = true
+			if f := g.Pkg.Func("init"); f != nil {
+				saveTrail, saveDec := len(x.trail), x.decisions
+				x.inStdInit++
+				x.callFunction(f, nil, nil)
+				x.inStdInit--
+				if len(x.trail) != saveTrail {
+					panic(abortSig{"unsupported", "package init of " + path + " forked"})
+				}
+				x.decisions = saveDec
+			}
+		}
+		c, ok := w.stdGlobals[g]
+		if !ok {
+			c = new(Value)
+			elem := g.Type().(*types.Pointer).Elem()
+			*c = x.zero(elem)
+			w.stdGlobals[g] = c
+			if types.Identical(elem, x.eng.errorType) && !w.stdInit[path] {
+				*c = x.newError(g.Pkg.Pkg.Name() + "." + g.Name())
+			}
+		}
+		return Ptr{C: c}
+	}
 	c, ok := x.globals[g]
 	if !ok {
 		c = new(Value)
 		elem := g.Type().(*types.Pointer).Elem()
 		*c = x.zero(elem)
 		x.globals[g] = c
-		x.initStdGlobal(g, c, elem)
 	}
-	return Ptr{C: c, Name: g.Pkg.Pkg.Path() + "." + g.Name()}
+	return Ptr{C: c, Name: path + "." + g.Name()}
 }
 
-// initStdGlobal gives error-typed globals of uninterpreted packages a unique value.
-func (x *Exec) initStdGlobal(g *ssa.Global, c *Value, elem types.Type) {
-	if x.eng.interpreted(g.Pkg.Pkg.Path()) {
-		return
-	}
-	if types.Identical(elem, x.eng.errorType) {
-		*c = x.newError(g.Pkg.Pkg.Name() + "." + g.Name())
-		return
-	}
-}
+var lazyInitPkgs = map[string]bool{"encoding/xml": true}
 
 func (x *Exec) newError(msg string) Value {
 	// &errors.errorString{msg}
@@ -127,26 +155,37 @@ func (x *Exec) callFunction(fn *ssa.Function, args []Value, fenv []Value) Value 
 	if fn.Blocks == nil {
 		x.unsupported("call to function without body: " + fn.String())
 	}
-	fr := &frame{x: x, fn: fn, env: make(map[ssa.Value]Value, 32), fenv: fenv}
-	for i, p := range fn.Params {
-		fr.env[p] = args[i]
+	fi := x.eng.funcInfo(fn)
+	var env []Value
+	if pool := x.w.envPool[fi]; len(pool) > 0 {
+		env = pool[len(pool)-1]
+		x.w.envPool[fi] = pool[:len(pool)-1]
+	} else {
+		env = make([]Value, fi.n)
+	}
+	fr := &frame{x: x, fn: fn, env: env, idx: fi.idx, fenv: fenv}
+	for i := range fn.Params {
+		fr.env[i] = args[i]
 	}
 	x.depth++
-	x.callStack = append(x.callStack, fn.String())
+	x.callStack = append(x.callStack, fn)
 	if x.funcs != nil {
-		x.funcs[fn.String()]++
+		x.funcs[fn]++
 	}
 	defer func() {
 		x.depth--
 		x.callStack = x.callStack[:len(x.callStack)-1]
 	}()
 	fr.block = fn.Blocks[0]
-	return fr.run()
+	res := fr.run()
+	// registers are dead after a normal return (SSA values are written before they are read)
+	x.w.envPool[fi] = append(x.w.envPool[fi], env)
+	return res
 }
 
 func (fr *frame) run() (res Value) {
 	x := fr.x
-	if len(fr.fn.Blocks) > 0 && hasDefer(fr.fn) {
+	if x.eng.funcInfo(fr.fn).hasDefer {
 		defer func() {
 			r := recover()
 			if r == nil {
@@ -174,7 +213,34 @@ func (fr *frame) run() (res Value) {
 	return fr.loop()
 }
 
-var deferCache = map[*ssa.Function]bool{}
+type fnInfo struct {
+	idx      map[ssa.Value]int
+	n        int
+	hasDefer bool
+	name     string
+}
+
+func (e *Engine) funcInfo(fn *ssa.Function) *fnInfo {
+	if v, ok := e.fnInfos.Load(fn); ok {
+		return v.(*fnInfo)
+	}
+	fi := &fnInfo{idx: map[ssa.Value]int{}, name: fn.String()}
+	for _, p := range fn.Params {
+		fi.idx[p] = fi.n
+		fi.n++
+	}
+	for _, b := range fn.Blocks {
+		for _, in := range b.Instrs {
+			if v, ok := in.(ssa.Value); ok {
+				fi.idx[v] = fi.n
+				fi.n++
+			}
+		}
+	}
+	fi.hasDefer = hasDefer(fn)
+	e.fnInfos.Store(fn, fi)
+	return fi
+}
 
 func hasDefer(fn *ssa.Function) bool {
 	for _, b := range fn.Blocks {
@@ -222,7 +288,7 @@ func (fr *frame) loop() Value {
 			case *ssa.Phi:
 				for i, p := range blk.Preds {
 					if p == fr.prev {
-						fr.env[in] = fr.get(in.Edges[i])
+						fr.env[fr.idx[in]] = fr.get(in.Edges[i])
 						break
 					}
 				}
@@ -273,45 +339,45 @@ func (fr *frame) exec(instr ssa.Instruction) {
 	case *ssa.Alloc:
 		c := new(Value)
 		*c = x.zero(in.Type().(*types.Pointer).Elem())
-		fr.env[in] = Ptr{C: c}
+		fr.env[fr.idx[in]] = Ptr{C: c}
 	case *ssa.UnOp:
-		fr.env[in] = fr.unop(in)
+		fr.env[fr.idx[in]] = fr.unop(in)
 	case *ssa.BinOp:
-		fr.env[in] = x.binop(in.Op, in.X.Type(), fr.get(in.X), fr.get(in.Y))
+		fr.env[fr.idx[in]] = x.binop(in.Op, in.X.Type(), fr.get(in.X), fr.get(in.Y))
 	case *ssa.Call:
-		fr.env[in] = x.doCall(fr, &in.Call, in)
+		fr.env[fr.idx[in]] = x.doCall(fr, &in.Call, in)
 	case *ssa.Defer:
 		fn, args := x.prepareCall(fr, &in.Call)
 		fr.defers = append(fr.defers, deferred{fn: fn, args: args, site: in})
 	case *ssa.Go:
 		x.unsupported("go statement")
 	case *ssa.ChangeInterface:
-		fr.env[in] = fr.get(in.X)
+		fr.env[fr.idx[in]] = fr.get(in.X)
 	case *ssa.ChangeType:
-		fr.env[in] = fr.get(in.X)
+		fr.env[fr.idx[in]] = fr.get(in.X)
 	case *ssa.Convert:
-		fr.env[in] = x.convert(in.X.Type(), in.Type(), fr.get(in.X))
+		fr.env[fr.idx[in]] = x.convert(in.X.Type(), in.Type(), fr.get(in.X))
 	case *ssa.MakeInterface:
-		fr.env[in] = Iface{T: in.X.Type(), V: copyVal(fr.get(in.X))}
+		fr.env[fr.idx[in]] = Iface{T: in.X.Type(), V: copyVal(fr.get(in.X))}
 	case *ssa.Extract:
-		fr.env[in] = fr.get(in.Tuple).(Tuple)[in.Index]
+		fr.env[fr.idx[in]] = fr.get(in.Tuple).(Tuple)[in.Index]
 	case *ssa.Field:
-		fr.env[in] = copyVal(fr.get(in.X).(StructV)[in.Field])
+		fr.env[fr.idx[in]] = copyVal(fr.get(in.X).(StructV)[in.Field])
 	case *ssa.FieldAddr:
 		p := fr.get(in.X).(Ptr)
 		if p.C == nil {
 			x.tpanic("nil pointer dereference (field)")
 		}
 		s := (*p.C).(StructV)
-		fr.env[in] = Ptr{C: &s[in.Field]}
+		fr.env[fr.idx[in]] = Ptr{C: &s[in.Field]}
 	case *ssa.Index:
-		fr.env[in] = fr.index(in)
+		fr.env[fr.idx[in]] = fr.index(in)
 	case *ssa.IndexAddr:
-		fr.env[in] = fr.indexAddr(in)
+		fr.env[fr.idx[in]] = fr.indexAddr(in)
 	case *ssa.Lookup:
-		fr.env[in] = fr.lookup(in)
+		fr.env[fr.idx[in]] = fr.lookup(in)
 	case *ssa.MakeMap:
-		fr.env[in] = x.newMap(in.Type())
+		fr.env[fr.idx[in]] = x.newMap(in.Type())
 	case *ssa.MakeSlice:
 		ln := x.needInt(fr.get(in.Len), "makeslice len")
 		cp := x.needInt(fr.get(in.Cap), "makeslice cap")
@@ -327,13 +393,13 @@ func (fr *frame) exec(instr ssa.Instruction) {
 		for i := range a.E {
 			a.E[i] = copyVal(z)
 		}
-		fr.env[in] = Slice{A: a, Off: 0, Len: ln, Cap: cp}
+		fr.env[fr.idx[in]] = Slice{A: a, Off: 0, Len: ln, Cap: cp}
 	case *ssa.MakeClosure:
 		env := make([]Value, len(in.Bindings))
 		for i, b := range in.Bindings {
 			env[i] = fr.get(b)
 		}
-		fr.env[in] = &Closure{Fn: in.Fn.(*ssa.Function), Env: env}
+		fr.env[fr.idx[in]] = &Closure{Fn: in.Fn.(*ssa.Function), Env: env}
 	case *ssa.MapUpdate:
 		m := fr.get(in.Map).(*MapObj)
 		x.mapUpdate(m, fr.get(in.Key), copyVal(fr.get(in.Value)))
@@ -341,13 +407,13 @@ func (fr *frame) exec(instr ssa.Instruction) {
 		p := fr.get(in.Addr).(Ptr)
 		x.store(p, fr.get(in.Val))
 	case *ssa.Slice:
-		fr.env[in] = fr.slice(in)
+		fr.env[fr.idx[in]] = fr.slice(in)
 	case *ssa.Range:
-		fr.env[in] = x.makeIter(fr.get(in.X), in.X.Type())
+		fr.env[fr.idx[in]] = x.makeIter(fr.get(in.X), in.X.Type())
 	case *ssa.Next:
-		fr.env[in] = x.iterNext(fr.get(in.Iter).(*MapIter), in)
+		fr.env[fr.idx[in]] = x.iterNext(fr.get(in.Iter).(*MapIter), in)
 	case *ssa.TypeAssert:
-		fr.env[in] = x.typeAssert(in, fr.get(in.X))
+		fr.env[fr.idx[in]] = x.typeAssert(in, fr.get(in.X))
 	case *ssa.SliceToArrayPointer:
 		x.unsupported("SliceToArrayPointer")
 	default:
